@@ -2,10 +2,13 @@ package datadog
 
 import (
 	"bytes"
+	"context"
+	"errors"
 	"fmt"
 	"io"
 	"net/http"
 	"os"
+	"sync"
 	"time"
 
 	"github.com/relex/gotils/logger"
@@ -19,6 +22,10 @@ type clientWorker struct {
 	logger  logger.Logger
 	client  *http.Client
 	request *http.Request
+
+	sendLock   sync.Mutex
+	sendCancel context.CancelFunc // cancels the request in flight, nil if there is none
+	closed     bool               // Close has been called since the last (re)opening
 }
 
 func NewClientWorker(parentLogger logger.Logger, args base.ChunkConsumerArgs, metricCreator promreg.MetricCreator, cfg UpstreamConfig) base.ChunkConsumer {
@@ -43,6 +50,7 @@ func NewClientWorker(parentLogger logger.Logger, args base.ChunkConsumerArgs, me
 		args,
 		metricCreator,
 		func() (baseoutput.ClosableClientConnection, error) {
+			worker.reopen()
 			return worker, nil
 		},
 		0, // no reconnects are required for an http connection
@@ -54,10 +62,17 @@ func (worker *clientWorker) Logger() logger.Logger {
 }
 
 func (worker *clientWorker) SendChunk(chunk base.LogChunk, _ time.Time) error {
-	worker.request.Body = io.NopCloser(bytes.NewReader(chunk.Data))
-	defer func() { worker.request.Body = nil }()
+	ctx, cancel := context.WithCancel(context.Background())
+	defer cancel()
+	if !worker.beginSend(cancel) {
+		return errors.New("send chunk error: connection closed")
+	}
+	defer worker.endSend()
 
-	resp, err := worker.client.Do(worker.request)
+	request := worker.request.WithContext(ctx)
+	request.Body = io.NopCloser(bytes.NewReader(chunk.Data))
+
+	resp, err := worker.client.Do(request)
 	if err != nil {
 		return fmt.Errorf("send chunk error: %w", err)
 	}
@@ -73,6 +88,39 @@ func (worker *clientWorker) SendChunk(chunk base.LogChunk, _ time.Time) error {
 	return nil
 }
 
-func (worker *clientWorker) Close()                                          {}                 //nolint:revive
+// Close aborts the request in flight, if any, and fails further requests until the next opening
+//
+// There is no persistent connection to close, but ClosableClientConnection requires ongoing operations to be cancelled
+func (worker *clientWorker) Close() {
+	worker.sendLock.Lock()
+	defer worker.sendLock.Unlock()
+	worker.closed = true
+	if worker.sendCancel != nil {
+		worker.sendCancel()
+	}
+}
+
+func (worker *clientWorker) reopen() {
+	worker.sendLock.Lock()
+	defer worker.sendLock.Unlock()
+	worker.closed = false
+}
+
+func (worker *clientWorker) beginSend(cancel context.CancelFunc) bool {
+	worker.sendLock.Lock()
+	defer worker.sendLock.Unlock()
+	if worker.closed {
+		return false
+	}
+	worker.sendCancel = cancel
+	return true
+}
+
+func (worker *clientWorker) endSend() {
+	worker.sendLock.Lock()
+	defer worker.sendLock.Unlock()
+	worker.sendCancel = nil
+}
+
 func (worker *clientWorker) SendPing(deadline time.Time) error               { return nil }     //nolint:revive
 func (worker *clientWorker) ReadChunkAck(deadline time.Time) (string, error) { return "", nil } //nolint:revive
